@@ -358,7 +358,7 @@ class Tracer:
             def deliver():
                 if self.client is None or reader is not self.client.reader or reader.exception() is not None:
                     return
-                reader.set_exception(ConnectionResetError("fake: connection reset by peer"))
+                reader.set_exception(self._read_fault())
                 b = {"kind": "env", "what": "reset", "n": 0, "snap": self.snap(), "vt": self.loop.time(), "ev": [], "end": "env"}
                 self.blocks.append(b)
                 self._count(b)
@@ -370,6 +370,24 @@ class Tracer:
         self.blocks.append(b)
         self._count(b)
         return True
+
+    def _read_fault(self):
+        """the exception a failing read raises: one of the classes a real transport reports (rotating with the run and the
+        number of faults so far); a serial port reports pyserial's SerialException or an OSError"""
+        gw = RUN_STATE.get("gw")
+        rot = (getattr(gw, "exc_rot", 0) if gw else 0) + getattr(self, "_nfaults", 0)
+        self._nfaults = getattr(self, "_nfaults", 0) + 1
+        kinds = [lambda: ConnectionResetError(104, "fake: connection reset by peer"),
+                 lambda: TimeoutError("fake: read timed out"),
+                 lambda: OSError(113, "fake: no route to host"),
+                 lambda: BrokenPipeError(32, "fake: broken pipe"),
+                 lambda: ConnectionAbortedError(103, "fake: software caused connection abort")]
+        if gw is not None and getattr(gw, "client", None) == "waveshare":
+            import serial
+            kinds = [lambda: serial.SerialException("fake: device reports readiness to read but returned no data "
+                                                    "(device disconnected or multiple access on port?)"),
+                     lambda: OSError(5, "fake: Input/output error")] + kinds[:2]
+        return kinds[rot % len(kinds)]()
 
     def user(self, what):
         b = {"kind": "user", "what": what, "snap": self.snap(), "vt": self.loop.time(), "ev": [], "end": "user"}
@@ -1173,6 +1191,8 @@ FAULTS = {"eof": [["eof"]], "reset": [["reset"]], "writeerr": [["wmode", "fail"]
           "garbage_eof": [["feed", GARBAGE], ["eof"]], "refuse3_eof": [["refuse_next", 3], ["eof"]],
           "refuse7_reset": [["refuse_next", 7], ["reset"]], "drainerr": [["wmode", "suspfail"], ["send"]],
           "sorry": [["feed", b"Sorry,Limited".hex()]],
+          # a long outage: 35 attempts in a row fail (about five minutes of back-off at the 10 s cap), then the gateway is back
+          "refuse35_eof": [["refuse_next", 35], ["eof"]],
           # the link breaks in the middle of a frame: what was buffered of it must not damage the first frame of the next link
           "partial_eof": [["partial"], ["eof"]], "partial_reset": [["partial"], ["reset"]],
           # (text clients) more than the 64 KiB stream limit without a line end, then ordinary traffic
